@@ -745,3 +745,10 @@ Proof.
     + rewrite Hj. apply Qle_refl.
   - rewrite Hi. destruct j; apply Qle_refl.
 Qed.
+
+Lemma nz_SAb_tol_sound n tol v : nz_SAb_tol n tol v = true -> nz_SA_tol n tol v.
+Proof.
+  unfold nz_SAb_tol. intros H A B HA HB Hd. rewrite forallb_forall in H.
+  specialize (H A (proj2 (in_alln n A) HA)). rewrite forallb_forall in H.
+  specialize (H B (proj2 (in_alln n B) HB)). rewrite Hd in H. apply Qle_bool_iff. exact H.
+Qed.
